@@ -478,7 +478,14 @@ pub fn finish(out: &mut ExecOut, dropper: Option<Box<dyn FnOnce()>>, received: V
             // structured ownership: nothing the combinator owned outlives it (wakers are still alive here)
             for i in 0..w.ch.len() {
                 if w.ch[i].created && w.ch[i].dropped == 0 {
-                    w.violate(&["C02"], format!("child {i} was not dropped although the combinator that owned it has been dropped"));
+                    // C06: "the losing children ... are dropped, unfinished, together with the race future"
+                    let mut props: Vec<&'static str> = vec!["C02"];
+                    if let Some((p, _)) = w.ch[i].parent {
+                        if w.ch[p].fam == Fam::Race && w.ch[p].kind == Kind::Node {
+                            props.push("C06");
+                        }
+                    }
+                    w.violate(&props, format!("child {i} was not dropped although the combinator that owned it has been dropped"));
                 }
             }
         });
@@ -504,7 +511,19 @@ pub fn finish(out: &mut ExecOut, dropper: Option<Box<dyn FnOnce()>>, received: V
         for i in 0..w.vals.len() {
             if w.vals[i].state != 2 {
                 let pr = w.vals[i].producer;
-                w.violate(&["C02"], format!("value v{i} (produced by child {pr}) was never dropped: leaked"));
+                // C05: "values already produced by other children are dropped rather than returned";
+                // C09: zip "drops - never yields - such unmatched items"
+                let mut props: Vec<&'static str> = vec!["C02"];
+                if let Some((p, _)) = w.ch.get(pr).and_then(|c| c.parent) {
+                    if w.ch[p].kind == Kind::Node {
+                        match w.ch[p].fam {
+                            Fam::TryJoin => props.push("C05"),
+                            Fam::Zip => props.push("C09"),
+                            _ => {}
+                        }
+                    }
+                }
+                w.violate(&props, format!("value v{i} (produced by child {pr}) was never dropped: leaked"));
             }
         }
         out.viol = std::mem::take(&mut w.viol);
